@@ -5,8 +5,11 @@
    property-package reset and the reset_chemicals round trip).  [final] is the heap after the history. *)
 From V Require Import Common.NumFacts C11.Model C11.Proofs.
 
-Definition final Vf MWf pkgs utab (l : list init) (ops : list op) : heap :=
-  fst (run Vf MWf pkgs utab (build l) ops).
+(* the machine that is run against the implementation: the heap plus the state kept outside the indexers
+   (Stream._flow_cache, the factor caches of the units objects, the per-stream property memo) *)
+Definition finalU Vf MWf pkgs utab (l : list init) (ops : list op) : ustate :=
+  fst (runU Vf MWf pkgs utab (buildU l) ops).
+Definition final Vf MWf pkgs utab (l : list init) (ops : list op) : heap := uh (finalU Vf MWf pkgs utab l ops).
 
 (* alias_inv: after EVERY history, every view cached for every stream wraps that stream's current molar
    dicts in the current phase order, takes T/P from the stream's own ThermalCondition object, the phase from
@@ -22,7 +25,7 @@ Theorem C11_alias_inv : forall Vf MWf pkgs utab l ops,
        srcs h s = srcs h s2 /\ pkg s = pkg s2).
 Proof.
   intros Vf MWf pkgs utab l ops h i s Hs.
-  pose proof (inv_run Vf MWf pkgs utab ops (build l) (inv_build Vf pkgs l)) as I.
+  pose proof (inv_runU Vf MWf pkgs utab ops (buildU l) (inv_build Vf pkgs l)) as I.
   destruct (I i s Hs) as (_ & (VM & VV) & SH). split; [|split].
   - intros v Hv. exact (VM v Hv).
   - intros v Hv. destruct (VV v Hv) as (A & B & C & _). auto.
@@ -35,7 +38,7 @@ Print Assumptions C11_alias_inv.
 (* the full invariant (including: every memo entry is the oracle's value for its key) holds after every history *)
 Theorem C11_invariant_all_histories : forall Vf MWf pkgs utab l ops,
   Inv Vf pkgs (final Vf MWf pkgs utab l ops).
-Proof. intros Vf MWf pkgs utab l ops. exact (inv_run Vf MWf pkgs utab ops (build l) (inv_build Vf pkgs l)). Qed.
+Proof. intros Vf MWf pkgs utab l ops. exact (inv_runU Vf MWf pkgs utab ops (buildU l) (inv_build Vf pkgs l)). Qed.
 Print Assumptions C11_invariant_all_histories.
 
 (* vol_get: after any history, reading the volumetric view gives, for every row (molar dict d, phase source src)
@@ -51,7 +54,7 @@ Theorem C11_vol_get : forall Vf MWf pkgs utab l ops,
     == nthq (getrow h d) j * (1000 * Vf (gid pkgs (pkg s) j) (base (src_phase h src)) T' P').
 Proof.
   intros Vf MWf pkgs utab l ops h i s Hs.
-  exact (vol_get_lemma Vf pkgs h i s (inv_run Vf MWf pkgs utab ops (build l) (inv_build Vf pkgs l)) Hs).
+  exact (vol_get_lemma Vf pkgs h i s (inv_runU Vf MWf pkgs utab ops (buildU l) (inv_build Vf pkgs l)) Hs).
 Qed.
 Print Assumptions C11_vol_get.
 
@@ -74,7 +77,7 @@ Theorem C11_mass_get : forall Vf MWf pkgs utab l ops,
     nthq (nth n (snd (read_mass MWf pkgs h s)) []) j == nthq (getrow h d) j * nthq (mwvec MWf pkgs (pkg s)) j.
 Proof.
   intros Vf MWf pkgs utab l ops h i s Hs.
-  exact (mass_get_lemma Vf MWf pkgs h i s (inv_run Vf MWf pkgs utab ops (build l) (inv_build Vf pkgs l)) Hs).
+  exact (mass_get_lemma Vf MWf pkgs h i s (inv_runU Vf MWf pkgs utab ops (buildU l) (inv_build Vf pkgs l)) Hs).
 Qed.
 Print Assumptions C11_mass_get.
 
@@ -91,7 +94,7 @@ Theorem C11_mass_set : forall Vf MWf pkgs utab l ops,
 Proof.
   intros Vf MWf pkgs utab l ops h i s r k v d src Hs Hr D K.
   exact (mass_set_lemma Vf MWf pkgs h i s r k v d src
-           (inv_run Vf MWf pkgs utab ops (build l) (inv_build Vf pkgs l)) Hs Hr D K).
+           (inv_runU Vf MWf pkgs utab ops (buildU l) (inv_build Vf pkgs l)) Hs Hr D K).
 Qed.
 Print Assumptions C11_mass_set.
 
@@ -102,15 +105,29 @@ Theorem C11_totals_mass : forall MWf pkgs h s,
 Proof. intros. split; [reflexivity|apply F_mass_is_sum]. Qed.
 Print Assumptions C11_totals_mass.
 
-(* F_vol (1000 * mixture molar volume at the current T, P, phases * F_mol) is the sum over rows and chemicals of
-   mol * 1000 * Vf at the current phase, T, P, whenever the total molar flow is not zero *)
+(* F_vol (1000 * mixture molar volume at the current T, P, phases * F_mol) is the sum over (phase, molar row) pairs and
+   chemicals of mol * 1000 * Vf at that phase and the current T, P, whenever the total molar flow is not zero *)
 Theorem C11_totals_vol : forall Vf pkgs h s, ~ F_mol h s == 0 ->
   F_vol Vf pkgs h s ==
-  qsum (map (fun x => qsum (map2 (fun m g => m * (1000 * Vf g (base (src_phase h (snd x)))
+  qsum (map (fun x => qsum (map2 (fun m g => m * (1000 * Vf g (base (fst x))
                                                      (fst (gettp h (tc s))) (snd (gettp h (tc s)))))
-                                 (getrow h (fst x)) (chems pkgs (pkg s)))) (srcs h s)).
+                                 (snd x) (chems pkgs (pkg s))))
+            (combine (cur_phases h s) (all_rows h s))).
 Proof. exact F_vol_is_sum. Qed.
 Print Assumptions C11_totals_vol.
+
+(* ... and the F_vol that the stream hands out goes through the property memo (_get_property): after EVERY history the
+   memoised read equals the mixture volume of the CURRENT phases, T, P and composition *)
+Theorem C11_total_vol_memo_fresh : forall Vf MWf pkgs utab l ops,
+  (forall g p T T' P P', T == T' -> P == P' -> Vf g p T P == Vf g p T' P') ->
+  let U := finalU Vf MWf pkgs utab l ops in
+  forall i s, nth_error (streams (uh U)) i = Some s ->
+    snd (F_volU Vf pkgs U i s) == F_vol Vf pkgs (uh U) s.
+Proof.
+  intros Vf MWf pkgs utab l ops E U i s Hs.
+  exact (F_volU_fresh Vf pkgs E U i s (PM_runU Vf MWf pkgs utab ops (buildU l) (PM_buildU Vf pkgs l)) Hs).
+Qed.
+Print Assumptions C11_total_vol_memo_fresh.
 
 (* units: a unit of another dimension is rejected with DimensionError and nothing changes;
    get_flow / get_total_flow are the fixed factor times the view item / the total *)
@@ -144,6 +161,71 @@ Proof.
 Qed.
 Print Assumptions C11_units_other_unit.
 
+(* the conversion-factor caches (Stream._flow_cache, AbsoluteUnitsOfMeasure.factor_cache of each units object) never
+   change an answer: after EVERY history a lookup returns exactly what pint (the oracle) says for THAT units object,
+   in particular a unit of another dimension is still rejected however the caches were filled *)
+Theorem C11_unit_caches_coherent : forall Vf MWf pkgs utab l ops,
+  let U := finalU Vf MWf pkgs utab l ops in
+  (forall w u, snd (cfactor utab U w u) = conv utab w u) /\
+  (forall u, snd (flow_lookup utab U u) = match unit_of utab u with Some x => Ok x | None => Err EDim end).
+Proof.
+  intros Vf MWf pkgs utab l ops U.
+  pose proof (UC_runU Vf MWf pkgs utab ops (buildU l) (UC_buildU utab l)) as C. fold (finalU Vf MWf pkgs utab l ops) in C. fold U in C.
+  split.
+  - intros w u. exact (proj1 (cfactor_ok utab U w u C)).
+  - intros u. exact (proj1 (flow_lookup_ok utab U u C)).
+Qed.
+Print Assumptions C11_unit_caches_coherent.
+
+(* the views' own units API (imol/imass/ivol .get_data / .set_data): after any history a unit of another dimension
+   raises and leaves every molar dict as it was *)
+Theorem C11_view_units_wrong_dimension : forall Vf MWf pkgs utab l ops,
+  let U := finalU Vf MWf pkgs utab l ops in
+  forall i s w u r k v, nth_error (streams (uh U)) i = Some s ->
+  (forall f, unit_of utab u <> Some (w, f)) ->
+  snd (stepU Vf MWf pkgs utab U (OGetData i w u r k)) = XErr EDim /\
+  snd (stepU Vf MWf pkgs utab U (OSetData i w u r k v)) = XErr EDim /\
+  rows (uh (fst (stepU Vf MWf pkgs utab U (OGetData i w u r k)))) = rows (uh U) /\
+  rows (uh (fst (stepU Vf MWf pkgs utab U (OSetData i w u r k v)))) = rows (uh U).
+Proof.
+  intros Vf MWf pkgs utab l ops U i s w u r k v Hs WD.
+  pose proof (UC_runU Vf MWf pkgs utab ops (buildU l) (UC_buildU utab l)) as C. fold (finalU Vf MWf pkgs utab l ops) in C. fold U in C.
+  assert (CV : conv utab w u = Err EDim).
+  { unfold conv. destruct (unit_of utab u) as [[w' f]|] eqn:E; [|reflexivity].
+    destruct (view_eqb w w') eqn:Q; [|reflexivity]. exfalso. apply (WD f).
+    destruct w, w'; simpl in Q; try discriminate; reflexivity. }
+  destruct (cfactor_ok utab U w u C) as (A & _). destruct (cfactor_uh utab U w u) as (B & _).
+  unfold stepU. rewrite Hs. destruct (cfactor utab U w u) as [U1 q]. cbn [fst snd] in *. rewrite CV in A. subst q.
+  cbn [fst snd uh with_heap]. rewrite B.
+  assert (R : rows (touch_view (uh U) s w) = rows (uh U)).
+  { destruct w; simpl; try reflexivity. unfold by_mass. destruct (c_mass (getcache (uh U) (cch s))); reflexivity. }
+  repeat split; auto.
+Qed.
+Print Assumptions C11_view_units_wrong_dimension.
+
+(* a view written with another view as the value (s1.mass = s2.mass, s1.vol = s2.vol, ms.ivol['g'] = ms.ivol['l']):
+   entry by entry, the destination then holds the molar amount whose mass / volume (with the destination's MW, or the
+   destination's phase and T, P up to the 1e-12 of in_equilibrium) is the mass / volume read from the source *)
+Theorem C11_view_copy_mass : forall vals mws mwd, length mws = length vals -> length mwd = length vals ->
+  (forall b, In b mwd -> ~ b == 0) ->
+  forall k, nthq (xfer_mass mws mwd vals) k * nthq mwd k == nthq vals k * nthq mws k.
+Proof. exact xfer_mass_spec. Qed.
+Print Assumptions C11_view_copy_mass.
+
+Theorem C11_view_copy_vol : forall Vf pkgs, (forall g p T P, ~ Vf g p T P == 0) ->
+  forall h vo vs vals ro rs, vrow_ok Vf pkgs (vv_pkg vo) ro -> vrow_ok Vf pkgs (vv_pkg vs) rs ->
+  forall j, exists To Po Td Pd,
+    Qabs (To - fst (gettp h (vv_tp vo))) < tp_tol /\ Qabs (Po - snd (gettp h (vv_tp vo))) < tp_tol /\
+    Qabs (Td - fst (gettp h (vv_tp vs))) < tp_tol /\ Qabs (Pd - snd (gettp h (vv_tp vs))) < tp_tol /\
+    nthq (fst (fst (xfer_vol Vf pkgs h vo vs ro rs O vals))) j
+      * (1000 * Vf (gid pkgs (vv_pkg vs) j) (base (src_phase h (vr_src rs))) Td Pd)
+    == nthq vals j * (1000 * Vf (gid pkgs (vv_pkg vo) j) (base (src_phase h (vr_src ro))) To Po).
+Proof.
+  intros Vf pkgs NZ h vo vs vals ro rs OKo OKs j.
+  exact (xfer_vol_spec Vf pkgs NZ h vo vs (vv_pkg vo) (vv_pkg vs) eq_refl eq_refl vals ro rs O OKo OKs j).
+Qed.
+Print Assumptions C11_view_copy_vol.
+
 (* set then get in the same unit is the identity, for every view (molar, mass, volumetric), after any history:
    set_flow(v, u, key) succeeds and get_flow(u, key) then returns v *)
 Theorem C11_units_set_then_get : forall Vf MWf pkgs utab l ops,
@@ -157,7 +239,7 @@ Theorem C11_units_set_then_get : forall Vf MWf pkgs utab l ops,
                = (h2, XMat [[x]]) /\ x == v.
 Proof.
   intros Vf MWf pkgs utab l ops MW VN h i s u w f r k v d src Hs U NZ Hr D K.
-  pose proof (inv_run Vf MWf pkgs utab ops (build l) (inv_build Vf pkgs l)) as I. fold (final Vf MWf pkgs utab l ops) in I. fold h in I.
+  pose proof (inv_runU Vf MWf pkgs utab ops (buildU l) (inv_build Vf pkgs l)) as I. fold (finalU Vf MWf pkgs utab l ops) in I. fold (final Vf MWf pkgs utab l ops) in I. fold h in I.
   destruct (set_get_item Vf MWf pkgs MW VN h i s w r k (v / f) d src I Hs Hr D K) as (S1 & h2 & x & G & X).
   assert (E1 : step Vf MWf pkgs utab h (OSetFlow i u r k v) = set_item Vf MWf pkgs h s w r k (v / f)).
   { unfold step. rewrite Hs, U. reflexivity. }
@@ -193,15 +275,16 @@ Definition exL : list init :=
 (* reads, a link, an unlink, a phase change, an expansion of phases by copy_like, a package reset and its round trip *)
 Definition exOps : list op :=
   [ORead 0 VMass; ORead 0 VVol; OLink 2 0 true true true; OUnlink 0; OPhase 0 Pg; OPhase 2 Ps; ORead 1 VMass;
-   OCopyLike 1 2; ORoundTrip 1 1; OThermo 0 1; OSet 0 VMass 0 1 4; ORead 0 VVol; ORead 1 VVol; ORead 1 VMass].
+   OCopyLike 1 2; ORoundTrip 1 1; OThermo 0 1; OSet 0 VMass 0 1 4; ORead 0 VVol; ORead 1 VVol; OTotal 1 VVol;
+   OCopyRow 1 VVol 0 1; OTotal 1 VVol; OGetFlow 0 1 0 1; OGetData 0 VMol 1 0 1; OGetData 0 VMass 1 0 1; ORead 1 VMass].
 
 (* the history runs without leaving the modelled domain, ends with cached mass and volumetric views for streams 0 and 1
    (so the conclusions of alias_inv / vol_get / mass_get talk about existing views), stream 1 has three phases after the
    expansion, and the hypotheses of mass_get / mass_set / set_total_keeps_composition hold for it *)
 Example C11_nonvacuous :
   let h := final exV exMW pkgstub exU exL exOps in
-  existsb (fun x => match x with XDomain | XErr _ => true | _ => false end)
-          (snd (run exV exMW pkgstub exU (build exL) exOps)) = false /\
+  existsb (fun x => match x with XDomain | XErr EIndex => true | _ => false end)
+          (snd (runU exV exMW pkgstub exU (buildU exL) exOps)) = false /\
   exists s0 s1 m0 m1 v0 v1,
     nth_error (streams h) 0 = Some s0 /\ nth_error (streams h) 1 = Some s1 /\
     c_mass (getcache h (cch s0)) = Some m0 /\ c_mass (getcache h (cch s1)) = Some m1 /\
